@@ -115,7 +115,7 @@ class QGen:
                     "sub", "subin", "filename", "getvar", "tag", "let", "let", "flag", "state_variable", "ns", "attr_up", "attr_low", "attr_camel",
                     "lit", "num", "firstcat", "optint", "optfb"]
             if self.allow_volatile:
-                pool += ["vol", "nocache"]
+                pool += ["vol", "nocache", "recache", "nonvol"]
             if self.allow_mutators:
                 pool += ["push", "push", "setkey", "dfcol", "mutvar", "mk", "deepmut"]
             if self.allow_fail:
